@@ -172,7 +172,19 @@ def expr(r, names, depth=0):
     if x < 0.50:      # member chain
         base = expr(r, names, depth + 1)
         n = r.randint(1, 3)
-        chain = "".join("." + (r.choice(PRIVATE) if r.random() < 0.45 else r.choice(PUBLIC)) for _ in range(n))
+        def member():
+            name = r.choice(PRIVATE) if r.random() < 0.45 else r.choice(PUBLIC)
+            y = r.random()
+            # spellings of the right operand of '.': bare, spaced, parenthesised (redundant parentheses are dropped by the
+            # RPN conversion, so the evaluator sees the same member access)
+            if y < 0.7:
+                return "." + name
+            if y < 0.8:
+                return ". " + name
+            if y < 0.93:
+                return ".(" + name + ")"
+            return ".((" + name + "))"
+        chain = "".join(member() for _ in range(n))
         return f"{base}{chain}" if base[0] not in "-+~n" else f"({base}){chain}"
     if x < 0.66:      # call
         f = expr(r, names, depth + 1)
@@ -299,7 +311,7 @@ def check(case, ctx):
         ctx.count("programs_evaluated")
         ctx.count("outcome:" + ("value" if outcome == "value" else "raised"))
         ctx.count("identifiers_resolved", _res["n"] - n0)
-        under = "._" in prog or "{0._" in prog or "{k._" in prog
+        under = "._" in prog or "{0._" in prog or "{k._" in prog or ".(_" in prog or ". _" in prog
         if under:
             ctx.count("programs_with_underscore_names")
         if ".format" in prog and ("{0._" in prog or "{k._" in prog or "{0.__" in prog):
